@@ -35,11 +35,33 @@ func (cx *Ctx) computeTreeReads() error {
 			vars[p.Name] = t
 		}
 		cx.inTree++
+		cx.curRec = append(cx.curRec, n)
 		env := &Env{cx: cx, st: cx.tree, vars: vars}
 		_, err := env.Eval(rd.Body)
+		cx.curRec = cx.curRec[:len(cx.curRec)-1]
 		cx.inTree--
 		if err != nil {
 			return fmt.Errorf("recdef %s: %v", n, err)
+		}
+	}
+	// transitive closure of reads over the call relation between recursive definitions
+	if cx.recReads == nil {
+		cx.recReads = map[string]map[string]bool{}
+	}
+	for changed := true; changed; {
+		changed = false
+		for caller, callees := range cx.recCalls {
+			for callee := range callees {
+				for cn := range cx.recReads[callee] {
+					if cx.recReads[caller] == nil {
+						cx.recReads[caller] = map[string]bool{}
+					}
+					if !cx.recReads[caller][cn] {
+						cx.recReads[caller][cn] = true
+						changed = true
+					}
+				}
+			}
 		}
 	}
 	return nil
@@ -128,6 +150,7 @@ func (u *Unit) Run() {
 		}
 		p.assume(g)
 	}
+	u.baseAssumes = len(p.assumes)
 	u.cover(p, "precondition")
 	u.findLoops()
 	for ord := range u.bc.own.Invs {
